@@ -163,15 +163,25 @@ def tap_pos_for(data, tap):
     return int(min(max(data["tap_neutral"] + tap, data.get("tap_min", -99)), data.get("tap_max", 99)))
 
 
-def create_from_type(el, name, tap_pos=None):
+def create_from_type(el, name, tap_pos=None, batch=False):
+    """creator using the std type; batch=True: through the plural create function (one element)"""
     def create(net, *a):
         kw = {} if tap_pos is None else {"tap_pos": tap_pos}
         if el == "line":
-            pp.create_line(net, a[0], a[1], a[2], name, **kw)
+            if batch:
+                pp.create_lines(net, [a[0]], [a[1]], a[2], name, **kw)
+            else:
+                pp.create_line(net, a[0], a[1], a[2], name, **kw)
         elif el == "trafo":
-            pp.create_transformer(net, a[0], a[1], name, **kw)
+            if batch:
+                pp.create_transformers(net, [a[0]], [a[1]], name, **kw)
+            else:
+                pp.create_transformer(net, a[0], a[1], name, **kw)
         else:
-            pp.create_transformer3w(net, a[0], a[1], a[2], name, **kw)
+            if batch:
+                pp.create_transformers3w(net, [a[0]], [a[1]], [a[2]], name, **kw)
+            else:
+                pp.create_transformer3w(net, a[0], a[1], a[2], name, **kw)
     return create
 
 
